@@ -114,6 +114,47 @@ def main():
         for kind, idx, h in handles:
             results.append((kind, idx, h.get()))
 
+    # second engine (thorough tier): coverage-guided atheris campaigns on the clauses the module nominates
+    fuzz_stats = []
+    fuzz_failures = []
+    fuzz_clauses = [c for c in getattr(mod, "FUZZ", []) if not args.clause or c in args.clause]
+    if tier == "thorough" and fuzz_clauses and os.environ.get("PBT_FUZZ", "1") != "0":
+        import subprocess
+        runs = int(os.environ.get("PBT_FUZZ_RUNS", "60000"))
+        max_time = int(os.environ.get("PBT_FUZZ_TIME", "240"))
+        jobs = []
+        for cname in fuzz_clauses:
+            for k in range(4):
+                outp = os.path.join(work, "fuzz-%s-%d.jsonl" % (cname, k))
+                env = dict(os.environ, TMPDIR=os.path.join(work, "fz-%s-%d" % (cname, k)))
+                os.makedirs(env["TMPDIR"], exist_ok=True)
+                cmd = [sys.executable, os.path.join(HERE, "fuzz.py"), prop, cname, "--out", outp, "--runs", str(runs),
+                       "--seed", str(seed * 7919 + k + 1), "--max-time", str(max_time),
+                       "--corpus", os.path.join(env["TMPDIR"], "corpus")]
+                jobs.append((cname, k, outp, subprocess.Popen(cmd, env=env, stdout=subprocess.DEVNULL,
+                                                              stderr=subprocess.DEVNULL, cwd=VERIF)))
+        for cname, k, outp, pr in jobs:
+            try:
+                pr.wait(timeout=max_time + 120)
+            except subprocess.TimeoutExpired:
+                pr.kill()
+            final = None
+            if os.path.exists(outp):
+                for line in open(outp):
+                    try:
+                        rec = json.loads(line)
+                    except ValueError:
+                        continue
+                    if rec.get("e") == "stat":
+                        final = rec
+                    elif rec.get("e") == "violation":
+                        fuzz_failures.append(rec)
+                    elif rec.get("e") == "unavailable":
+                        final = {"unavailable": rec.get("why")}
+                    elif rec.get("e") == "harness-error":
+                        fuzz_failures.append({"harness": rec.get("msg")})
+            fuzz_stats.append({"clause": cname, "campaign": k, "engine": "atheris/libFuzzer", "result": final})
+
     known = core.load_known()
     errors = []
     failures = []   # (clause, bucket, message, case, replay_path or None)
@@ -144,6 +185,12 @@ def main():
         for k, v in st["known_seen"].items():
             known_seen[k] = known_seen.get(k, 0) + v
         for f in r["failures"]:
+            failures.append((f["clause"], f["vclause"], f["bucket"], f["message"], f["case"], None))
+
+    for f in fuzz_failures:
+        if "harness" in f:
+            errors.append("fuzz: " + f["harness"])
+        else:
             failures.append((f["clause"], f["vclause"], f["bucket"], f["message"], f["case"], None))
 
     # classify failures: known findings vs violations (one replay file per (clause, bucket))
@@ -206,6 +253,8 @@ def main():
         "per_clause": {name: {"kind": p["kind"], "evaluations": p["evaluations"], "distinct_nontrivial": len(p["nt"]),
                               "classes": dict(sorted(p["classes"].items())), "excluded_by_bucket": p["excluded"],
                               "cpu_s": round(p["wall_s"], 2)} for name, p in per.items()},
+        "fuzz_campaigns": fuzz_stats,
+        "fuzz_executions": sum((f["result"] or {}).get("execs", 0) for f in fuzz_stats if f["result"]),
         "known_findings_seen": known_seen,
         "violations": vio_records,
         "harness_errors": [e[:2000] for e in errors],
@@ -221,6 +270,9 @@ def main():
         core.real_print(line)
     core.real_print("%s tier=%s seed=%d cases=%d distinct_nontrivial=%d clauses=%d wall=%.1fs" % (
         prop, tier, seed, total_eval, len(all_nt), len(per), time.time() - t0))
+    if fuzz_stats:
+        core.real_print("   atheris campaigns: %d, executions %d, violations %d" % (
+            len(fuzz_stats), coverage["fuzz_executions"], sum(1 for f in fuzz_failures if "harness" not in f)))
     for name, p in per.items():
         core.real_print("   %-28s n=%-7d nt=%-7d %s" % (name, p["evaluations"], len(p["nt"]),
                                                      json.dumps(dict(sorted(p["classes"].items())))[:300]))
